@@ -76,6 +76,39 @@ PROPS = {
         "trusted": [],
         "assumptions": [],
     },
+    "C04": {
+        "lean_targets": ["Pep508.Theorems.C04"],
+        "theorems": ["Pep508.C04.is_disjoint_sound", "Pep508.C04.is_disjoint_symm", "Pep508.C04.is_disjoint_iff_and_false",
+                     "Pep508.C04.is_false_sound", "Pep508.C04.is_true_sound", "Pep508.C04.and_false_sound",
+                     "Pep508.isDisjointF_sound", "Pep508.isDisjointF_comm", "Pep508.isDisjointF_iff_andF"],
+        "suites": [{"name": "algebra", "args": ["C04"]}],
+        "rule": "a pool of markers is built through the real API along random construction paths (typed expressions, and/or/negate, simplify_extras, "
+                "simplify/complexify_python_versions, plus shapes generated on purpose); pairs (biased towards related operands: a vs not a, a vs (not a and c)) go through is_disjoint in both orders and through (a and b).is_false(); "
+                "the three verdict bits are compared with the model on literal operands; verdicts are checked against region environments (disjoint => no environment "
+                "satisfies both; is_false/is_true => none/all); non-trivial = pairs reported disjoint",
+        "trusted": [], "assumptions": [],
+    },
+    "C11": {
+        "lean_targets": ["Pep508.Theorems.C11"],
+        "theorems": ["Pep508.C11.restrict_eval", "Pep508.C11.restrict_independent", "Pep508.C11.not_mentioned_irrelevant",
+                     "Pep508.C11.with_extra_marker_eval", "Pep508.C11.extra_expr_eval", "Pep508.OK_restrict"],
+        "suites": [{"name": "algebra", "args": ["C11"]}],
+        "rule": "a pool of markers is built through the real API along random construction paths (typed expressions, and/or/negate, simplify_extras, "
+                "simplify/complexify_python_versions, plus shapes generated on purpose); simplify_extras(E) with 1-2 extras (spellings of one normal form included) is applied one step from literal operands and compared with the model; "
+                "the result is evaluated on region environments against the original on S union E and its dump is searched for variables of E; extra == 'N' / != 'N' atoms "
+                "in every spelling (valid, invalid, empty) are compared with the model and with normalized-name membership; non-trivial = distinct op case",
+        "trusted": ["top_level_extra is decided by the DNF model (C05)"], "assumptions": [],
+    },
+    "C13": {
+        "lean_targets": ["Pep508.Theorems.C13"],
+        "theorems": ["Pep508.C13.evaluate_extras_sound", "Pep508.C13.evaluate_extras_false", "Pep508.evalExtras_sound"],
+        "suites": [{"name": "algebra", "args": ["C13"]}],
+        "rule": "a pool of markers is built through the real API along random construction paths (typed expressions, and/or/negate, simplify_extras, "
+                "simplify/complexify_python_versions, plus shapes generated on purpose); every pool marker is evaluated with four extras sets through evaluate_extras, evaluate_optional_environment(None) and "
+                "evaluate_extras_and_python_version; bits are compared with the model (Tree.evalExtras on the literal dump); soundness is checked existentially over "
+                "region environments; non-trivial = distinct marker dumps",
+        "trusted": ["exactness on independent variables is checked by the oracle only (witness search), not yet a theorem"], "assumptions": [],
+    },
 }
 
 NOT_APPLICABLE = {}
@@ -83,6 +116,24 @@ NOT_APPLICABLE = {}
 _NOTE = ("Trusted: Lean 4.33 kernel (+ propext, Classical.choice, Quot.sound, audited per theorem); the hand-written model is tied to the code by "
          "differential correspondence on generated cases (sampled, not proved); ")
 MANIFEST_TEXT = {
+    "C04": {
+        "technique": "Lean 4 theorems: is_disjoint is sound for every environment, symmetric, and equals (and == FALSE) (fuel induction mirroring the recursion) + verdict correspondence",
+        "text": "isDisjointF_sound / _comm / _iff_andF over arbitrary linear orders; is_true/is_false soundness is definitional on the kind() view; tied to the code by "
+                "comparing the verdict bits of is_disjoint (both orders) and (a and b).is_false() on literal operands, plus a region-environment oracle.",
+        "note": _NOTE + "is_true/is_false completeness is C03.",
+    },
+    "C11": {
+        "technique": "Lean 4 theorems: restrict = evaluation under the overridden environment, result mentions no restricted variable (all markers), with_extra_marker = and; one-step correspondence",
+        "text": "eval_restrict / restrict_mentionsB / OK_restrict proved for every restriction function and every diagram (so several restricted extras on one path are covered: "
+                "the F15 defect); extra ==/!= expression meaning; with_extra_marker through C02. top_level_extra rests on the DNF model (C05).",
+        "note": _NOTE + "ExtraName normalisation is C09; top_level_extra's clause is carried by the C05 machinery.",
+    },
+    "C13": {
+        "technique": "Lean 4 theorem: evalExtras is an over-approximation of evaluation for every diagram (no well-formedness needed) + bit correspondence + existential oracle",
+        "text": "evalExtras_sound: if any environment consistent with the extras satisfies the diagram then evaluate_extras answers true; contrapositive for false. "
+                "evaluate_extras_and_python_version is the same function on reachable diagrams (python_version nodes never exist).",
+        "note": _NOTE + "exactness for independent variables: oracle only.",
+    },
     "C20": {
         "technique": "Lean 4 theorems: the executable C20 predicate Tree.wf is preserved by and/or/not (product of partitions is a partition, coalescing restores "
                      "adjacent-distinct, create_node reduction, rank invariant) + the same predicate evaluated on implementation dumps + one-step correspondence",
